@@ -34,6 +34,7 @@ type FuncContract struct {
 	Modifies []*Node
 	HasMod   bool
 	Loops    map[int][]*Clause
+	BackEdge map[int][]*Clause // `loop N backedge`: asserted on every back edge of loop N, may name loop-body locals (latest definition) and defined(x)
 	Asserts  []*Clause // site assertions, by call-site selector (Label "site:<callee>#n: expr")
 	Uses     []string  // lemmas/axioms available in this function's VCs
 	Cases    []*CaseContract
@@ -408,14 +409,21 @@ func (c *Contracts) parseFile(path string) error {
 			}
 			fs := strings.SplitN(rest, " ", 3)
 			n, err := strconv.Atoi(fs[0])
-			if err != nil || len(fs) < 3 || fs[1] != "invariant" {
-				return fmt.Errorf("%s: expected 'loop N invariant ...'", it.pos)
+			if err != nil || len(fs) < 3 || (fs[1] != "invariant" && fs[1] != "backedge") {
+				return fmt.Errorf("%s: expected 'loop N invariant ...' or 'loop N backedge ...'", it.pos)
 			}
 			cl, err := parseClause(fs[2], it.pos)
 			if err != nil {
 				return err
 			}
-			curFunc.Loops[n] = append(curFunc.Loops[n], cl)
+			if fs[1] == "backedge" {
+				if curFunc.BackEdge == nil {
+					curFunc.BackEdge = map[int][]*Clause{}
+				}
+				curFunc.BackEdge[n] = append(curFunc.BackEdge[n], cl)
+			} else {
+				curFunc.Loops[n] = append(curFunc.Loops[n], cl)
+			}
 		case "use":
 			fs := strings.Fields(rest)
 			if len(fs) < 2 || fs[0] != "lemma" {
